@@ -217,6 +217,25 @@ def main(argv=None):
             tasks = tasks + ctasks
             frontier = {s for r in cres for s in r.get("stubs", [])} - have
 
+    # A contract selected with only SOME of its configurations (cfg_relevant: e.g. the body operations of C17 in plain mode)
+    # that a contract OWNING the property leans on as a callee in every mode (val() calls assert_zero under a false guard
+    # too): the remaining configurations of that callee are obligations of the property as well.
+    if not a.only:
+        def _owns(K):
+            return prop in (set(K.cprops) | set(K.sprops) | set(K.eprops) | set(K.vprops) | set(K.tprops) | set(K.fprops))
+        leaned_on = {s for r in results if _owns(ct.REGISTRY[r["function"]]) for s in r.get("stubs", [])}
+        extra = []
+        for K, _f in sel:
+            if K.name in leaned_on and not _owns(K):
+                fac = getattr(K, "facets", None) or PR.FACETS[prop]
+                extra += [(K.name, cfg, fac, tier) for cfg in K.configs(tier) if not PR.cfg_relevant(prop, K, cfg)]
+        if extra:
+            eres = run_tasks(extra, a.jobs, tier)
+            for r in eres:
+                r["via_callee"] = True
+            results = list(results) + eres
+            tasks = tasks + extra
+
     # The gadget layer is verified against the abstract backend of pyvc/ghost.py: evaluation of linear combinations is
     # the field expression of the operands' evaluations, fieldinverse inverts modulo the reported prime and refuses
     # zero.  Properties that speak about the witness and the constraints (satisfaction, soundness, value = wire
@@ -273,6 +292,35 @@ def main(argv=None):
     broken = list(skipped[:5])
     obligations = []        # (function, cfg, ob)
     notes = []
+    # A contract with an unbounded ("arbitrary ...") configuration next to concrete companions (the same clauses on concrete
+    # shapes with symbolic values, loop-free and replayable): a countermodel of the unbounded configuration that NONE of the
+    # companions reproduces -- they all prove that clause -- is an artefact of the abstraction (maps as arrays, products as
+    # refined uninterpreted functions), not a counterexample: it cannot be replayed and is reported as a NOTE, never as a
+    # violation.  (Seen on a behaviour-preserving change that reduces the scalar of LinearCombination.__mul__ modulo p.)
+    by_fn = {}
+    for r in results:
+        by_fn.setdefault(r["function"], []).append(r)
+    for fn_, rs in by_fn.items():
+        oc = getattr(ct.REGISTRY[fn_], "optional_cfg", None)
+        if not oc:
+            continue
+        conc = [r for r in rs if not oc(r["cfg_raw"]) and not r["engine_errors"]]
+        if len(conc) < 3:
+            continue
+        for r in rs:
+            if not oc(r["cfg_raw"]):
+                continue
+            keep = []
+            for ob in r["obligations"]:
+                nm = ob["name"]
+                if ob["verdict"] == "refuted" and not ob.get("canary") and not nm.startswith(("canary", "cover.", "frame.", "loop.")):
+                    same = [o for c_ in conc for o in c_["obligations"] if o["name"] == nm]
+                    if same and all(o["verdict"] == "proved" for o in same):
+                        notes.append("%s %s: countermodel of %s in the unbounded configuration is not reproduced by any of the %d concrete "
+                                     "configurations (all prove it); not counted" % (fn_, r["cfg"], nm, len(conc)))
+                        continue
+                keep.append(ob)
+            r["obligations"] = keep
     for r in results:
         K_ = ct.REGISTRY[r["function"]]
         if r["engine_errors"] and getattr(K_, "optional_cfg", None) and K_.optional_cfg(r["cfg_raw"]) \
